@@ -90,6 +90,9 @@ structure Style where
   geogLast : Bool := false  -- GEOGCS after PROJECTION and the PARAMETERs
   towgsFirst : Bool := false -- TOWGS84 before SPHEROID inside DATUM
   authFirst : Bool := false -- AUTHORITY right after the name (PROJCS, GEOGCS, DATUM) instead of last
+  -- NOT meaning-preserving: leave one parameter out of both notations ("twin" definitions: set vs omitted).
+  -- 0 none, 1 lat_0, 2 lat_1, 3 lat_2, 4 lon_0, 5 k_0, 6 false easting, 7 false northing
+  leaveOut : Nat := 0
 deriving Repr, DecidableEq, Inhabited
 
 def usFootDecQ : Dec := ⟨3048006096012192, 16⟩
@@ -115,11 +118,17 @@ def p4Kind : Kind → String
 
 def p4Params (c : Crs) (st : Style) : List Str :=
   let kk := if st.k0key then "k_0" else "k"
-  match c.kind with
-  | .geog => []
-  | .merc => [kv "lon_0" c.lon0, kv kk c.k0, kv "x_0" c.feM, kv "y_0" c.fnM]
-  | .tmerc => [kv "lat_0" c.lat0, kv "lon_0" c.lon0, kv kk c.k0, kv "x_0" c.feM, kv "y_0" c.fnM]
-  | _ => [kv "lat_1" c.lat1, kv "lat_2" c.lat2, kv "lat_0" c.lat0, kv "lon_0" c.lon0, kv "x_0" c.feM, kv "y_0" c.fnM]
+  let lat0 := (1, kv "lat_0" c.lat0)
+  let lon0 := (4, kv "lon_0" c.lon0)
+  let k0 := (5, kv kk c.k0)
+  let x0 := (6, kv "x_0" c.feM)
+  let y0 := (7, kv "y_0" c.fnM)
+  let all : List (Nat × Str) := match c.kind with
+    | .geog => []
+    | .merc => [lon0, k0, x0, y0]
+    | .tmerc => [lat0, lon0, k0, x0, y0]
+    | _ => [(2, kv "lat_1" c.lat1), (3, kv "lat_2" c.lat2), lat0, lon0, x0, y0]
+  (all.filter fun p => p.1 ≠ st.leaveOut).map (·.2)
 
 def p4Datum (c : Crs) : List Str :=
   match c.datum with
@@ -210,21 +219,22 @@ def par (st : Style) (ogc esri : String) (d : Dec) : WArg :=
   .sub "PARAMETER" [.q (if st.esri then esri else ogc), .num d]
 
 def wktParams (c : Crs) (st : Style) : List WArg :=
-  let fe := par st "false_easting" "False_Easting" c.fe
-  let fn := par st "false_northing" "False_Northing" c.fn
-  let cm := par st "central_meridian" "Central_Meridian" c.lon0
-  let sp1 := par st "standard_parallel_1" "Standard_Parallel_1" c.lat1
-  let sp2 := par st "standard_parallel_2" "Standard_Parallel_2" c.lat2
-  let sf := par st "scale_factor" "Scale_Factor" c.k0
-  let lo := par st "latitude_of_origin" "Latitude_Of_Origin" c.lat0
-  match c.kind with
-  | .geog => []
-  | .merc => if st.esri then [fe, fn, cm, sf] else [cm, sf, fe, fn]
-  | .tmerc => if st.esri then [fe, fn, cm, sf, lo] else [lo, cm, sf, fe, fn]
-  | .lcc => if st.esri then [fe, fn, cm, sp1, sp2, lo] else [sp1, sp2, lo, cm, fe, fn]
-  | _ =>  -- Albers / Equidistant conic: OGC says latitude_of_center / longitude_of_center
-    if st.esri then [fe, fn, cm, sp1, sp2, lo]
-    else [sp1, sp2, par st "latitude_of_center" "" c.lat0, par st "longitude_of_center" "" c.lon0, fe, fn]
+  let fe := (6, par st "false_easting" "False_Easting" c.fe)
+  let fn := (7, par st "false_northing" "False_Northing" c.fn)
+  let cm := (4, par st "central_meridian" "Central_Meridian" c.lon0)
+  let sp1 := (2, par st "standard_parallel_1" "Standard_Parallel_1" c.lat1)
+  let sp2 := (3, par st "standard_parallel_2" "Standard_Parallel_2" c.lat2)
+  let sf := (5, par st "scale_factor" "Scale_Factor" c.k0)
+  let lo := (1, par st "latitude_of_origin" "Latitude_Of_Origin" c.lat0)
+  let all : List (Nat × WArg) := match c.kind with
+    | .geog => []
+    | .merc => if st.esri then [fe, fn, cm, sf] else [cm, sf, fe, fn]
+    | .tmerc => if st.esri then [fe, fn, cm, sf, lo] else [lo, cm, sf, fe, fn]
+    | .lcc => if st.esri then [fe, fn, cm, sp1, sp2, lo] else [sp1, sp2, lo, cm, fe, fn]
+    | _ =>  -- Albers / Equidistant conic: OGC says latitude_of_center / longitude_of_center
+      if st.esri then [fe, fn, cm, sp1, sp2, lo]
+      else [sp1, sp2, (1, par st "latitude_of_center" "" c.lat0), (4, par st "longitude_of_center" "" c.lon0), fe, fn]
+  (all.filter fun p => p.1 ≠ st.leaveOut).map (·.2)
 
 def wktUnit (c : Crs) (st : Style) : WArg :=
   match c.unit with
@@ -391,6 +401,12 @@ def styleEsri : Style := { esri := true }
 def styleBusy : Style := { auth := true, spaces := true, axis := true, k0key := true, title := true }
 def styleEsriBusy : Style := { esri := true, spaces := true, axis := true, k0key := true }
 
+/-- exact zeros and ones everywhere a parameter may legitimately be 0 or 1 -/
+def zeroSample (k : Kind) : Crs :=
+  let c := sample k .metre 0
+  { c with lat0 := ⟨0, 0⟩, lon0 := ⟨0, 1⟩, k0 := ⟨1, 0⟩, fe := ⟨0, 0⟩, fn := ⟨0, 1⟩, feM := ⟨0, 0⟩, fnM := ⟨0, 1⟩,
+           towgs := some [⟨-87, 0⟩, ⟨0, 0⟩, ⟨0, 0⟩, ⟨0, 0⟩, ⟨0, 0⟩, ⟨554, 3⟩, ⟨0, 0⟩] }
+
 /-- the finite family checked by the kernel in `C20_parse_agree_partial`: every kind with every
 unit, every datum flavour and every spelling switch at least once -/
 def family (k : Kind) : List (Crs × Style) :=
@@ -399,7 +415,10 @@ def family (k : Kind) : List (Crs × Style) :=
    (sample k .usFootDec 2, { styleBusy with unitPos := 2, authFirst := true }), -- UNIT between the PARAMETERs, AUTHORITY first
    (sample k .metre 3, { styleEsriBusy with projLast := true }),                -- PROJECTION after the PARAMETERs
    ({ sample k .usFootDec 1 with dname := 9 }, { styleOgc with unitPos := 1, projLast := true, towgsFirst := true, auth := true }),
-   (sample k .foot 0, styleOgc)]                                               -- the plain layout (UNIT last)
+   (sample k .foot 0, styleOgc),                                               -- the plain layout (UNIT last)
+   -- exact zeros and ones: origin latitude 0 with standard_parallel_1 ≠ 0 (must NOT default to it), lon_0 = 0,
+   -- false origin 0, scale factor 1, zero terms inside the datum shift
+   (zeroSample k, styleOgc)]
 
 
 /-! ## registered names and named datums (second-round additions) -/
